@@ -18,3 +18,8 @@ chk("C05", "exploration",
     "Red-zone sanitizers miss non-adjacent overflows; inputs live in exactly-sized heap blocks; std::bad_alloc above a 128 MiB single allocation is a legal outcome; clang/libFuzzer sees only the codec translation units.",
     "sanitizer-instrumented execution with interposed zlib monitor over enumerated, systematically mutated and coverage-guided inputs",
     "DESIGN.md section 4, C05")
+chk("C01", "exploration",
+    "On all 18 schema versions generated snapshots are written with create_track() and update() on the real library and read back; three separately keyed clauses are judged per write: every field equals N(schema, written) (N = the normalisations the statement names), re-writing the read-back snapshot and reading again changes nothing (fixed point), and a write that returned is followed by a snapshot() that returns. Pools: every optional both ways, pairwise-distinct values across same-typed fields, sentinels 0/-1, 0..12 cue/loop slots, labels up to 1000 bytes, strings with NUL/invalid UTF-8/5000 bytes, grids 0..5000 markers, waveforms 0..100000 entries.",
+    "Plain -O2 build; rejected writes (any std::exception) are accepted; 2.x waveform judged only by 'every output point occurs in the input in order' plus the fixed point; 1.x tempo policy recorded as known findings with policy-specific keys so any other bpm corruption still alarms.",
+    "runtime monitoring of real create/update/snapshot executions against a per-field reference normalisation and a fixed-point oracle",
+    "DESIGN.md section 4, C01")
